@@ -97,6 +97,10 @@ def check(run):
         if q.render(rf, t) == 'ec' and 'would_block' in q.render(rf, r):
             run.check(any(q.render(rf, a) == 'm_incoming_queue.empty()' and p for a, p in q.guards_at(rf, n)), 'R5', 'would-block-iff-empty', U + '::receive_from_impl', rf.loc(n), 'would_block reported although datagrams are queued', 'would_block only when the queue is empty')
 
+    run.clause('a parked receive is completed whichever receive style the reader uses: slot stores agree with the flag maybe_wakeup_reader dispatches on (shared with C06)')
+    import p06
+    p06.flag_slot_agreement(run, U)
+
     run.clause('validation precedes the wire: empty / >65535 / would_block each return 0 before log_udp or forward_packet; the route is resolved in the same call')
     st = fx.fn1(U + '::send_to_impl')
     run.touch(st)
